@@ -92,10 +92,6 @@ package locking
 //@ iface (lockClient).Unlock
 //@   modifies fresh
 //@   ensures result2 == nil ==> result0 != nil
-//@ func github.com/git-lfs/git-lfs/v3/tools.SetFileWriteFlag
-//@   assumed
-//@   props C16
-//@   modifies fresh
 //@ func github.com/git-lfs/git-lfs/v3/tools.FileExists
 //@   assumed
 //@   props C16
@@ -176,3 +172,15 @@ package locking
 //@   props C16
 //@   ensures result2 == nil && status > 299 && len(lines) > 0 ==> result1 == lines[0]
 //@   ensures result2 == nil && status >= 200 && status <= 299 ==> result0 != nil
+
+// C16: when the write flag of a file has been set as asked (no error), the
+// mode the file has - or was just given - is right: asked to make it writable,
+// the owner's write bit is set (a group or world write bit does not count);
+// asked to make it read-only, no write bit is left.
+//@ func github.com/git-lfs/git-lfs/v3/tools.SetFileWriteFlag
+//@   assumed
+//@   props C16
+//@   modifies fresh
+//@   ensures @checked defined(mode) ==> (result == nil && writeEnabled ==> mode & 0200 > 0)
+//@   ensures @checked defined(mode) ==> (result == nil && !writeEnabled ==> mode & 0222 == 0)
+//@   at call os.Chmod:1 assert arg0__ == old(path)
